@@ -330,6 +330,44 @@ def unmap_length_rule(chk, prog, loader, maps, asg, pairs):
     chk.floor("unmap length sites", n, 3)
 
 
+def bin_rule(chk, prog):
+    ce = ConstEval(prog)
+    # ---- BIN: the binary file holds exactly [0, offset) ----------------------------------------------------------
+    bf = prog.fn("asm_create_bin_file")
+    inst = prog.params(bf)[0]["name"]
+    basg = _assignments(prog, bf)
+
+    def resolves_to(e, field, getter):
+        e = strip(e, casts=True)
+        t = expr_str(e)
+        if t in ("%s->%s" % (inst, field), "%s(%s)" % (getter, inst)):
+            return True
+        if t in basg and len(basg[t]) == 1:
+            return resolves_to(basg[t][0], field, getter)
+        return False
+    fw = [c for c in walk(prog.body(bf)) if c.get("kind") == "CallExpr" and callee_name(c) == "fwrite"]
+    chk.floor("fwrite calls", len(fw), 1)
+    for c in fw:
+        a = call_args(c)
+        chk.require(resolves_to(a[0], "buffer", "asm_get_code") or resolves_to(a[0], "buffer", "asm_get_buffer"), "BIN", "BIN/data", loc_str(c),
+                    "fwrite is given the start of the code buffer", expr_str(a[0]))
+        chk.require(ce.try_eval(a[1]) == 1 and resolves_to(a[2], "offset", "asm_get_offset"), "BIN", "BIN/count", loc_str(c),
+                    "fwrite is asked for exactly offset bytes (element size 1)", "size %s count %s" % (expr_str(a[1]), expr_str(a[2])))
+    opens = [c for c in walk(prog.body(bf)) if c.get("kind") == "CallExpr" and callee_name(c) in ("fopen", "open", "creat")]
+    chk.floor("output file opens", len(opens), 1)
+    for c in opens:
+        a = call_args(c)
+        if callee_name(c) == "fopen":
+            mode = strip(a[1], casts=True)
+            mv = mode.get("value", "") if mode.get("kind") == "StringLiteral" else ""
+            chk.require(mv.strip('"').startswith("w"), "BIN", "BIN/truncate", loc_str(c),
+                        "the output file is opened for writing with truncation (mode \"w...\")", "mode %s" % mv)
+        elif callee_name(c) == "open":
+            fl = ce.try_eval(a[1])
+            chk.require(fl is not None and fl & O_TRUNC, "BIN", "BIN/truncate", loc_str(c),
+                        "the output file is opened with O_TRUNC (an existing longer file must not keep its tail)", "flags %s" % (oct(fl) if fl is not None else "?"))
+
+
 def run(chk, prog, tier):
     roles = PL.Roles(prog)
     lib = prog.lib_functions()
@@ -392,40 +430,7 @@ def run(chk, prog, tier):
     C17.check_functions(chk, prog, sorted({loader} | {p[0] for p in pairs} | {"asm_create_bin_file"}), kinds)
     npair = ERR.pair_rule(chk, prog, sorted({loader} | {p[0] for p in pairs} | {"asm_create_bin_file"}))
     chk.floor("acquire/release pairs in the file entry points", npair, 3)
-    # ---- BIN: the binary file holds exactly [0, offset) ----------------------------------------------------------
-    bf = prog.fn("asm_create_bin_file")
-    inst = prog.params(bf)[0]["name"]
-    basg = _assignments(prog, bf)
-
-    def resolves_to(e, field, getter):
-        e = strip(e, casts=True)
-        t = expr_str(e)
-        if t in ("%s->%s" % (inst, field), "%s(%s)" % (getter, inst)):
-            return True
-        if t in basg and len(basg[t]) == 1:
-            return resolves_to(basg[t][0], field, getter)
-        return False
-    fw = [c for c in walk(prog.body(bf)) if c.get("kind") == "CallExpr" and callee_name(c) == "fwrite"]
-    chk.floor("fwrite calls", len(fw), 1)
-    for c in fw:
-        a = call_args(c)
-        chk.require(resolves_to(a[0], "buffer", "asm_get_code") or resolves_to(a[0], "buffer", "asm_get_buffer"), "BIN", "BIN/data", loc_str(c),
-                    "fwrite is given the start of the code buffer", expr_str(a[0]))
-        chk.require(ce.try_eval(a[1]) == 1 and resolves_to(a[2], "offset", "asm_get_offset"), "BIN", "BIN/count", loc_str(c),
-                    "fwrite is asked for exactly offset bytes (element size 1)", "size %s count %s" % (expr_str(a[1]), expr_str(a[2])))
-    opens = [c for c in walk(prog.body(bf)) if c.get("kind") == "CallExpr" and callee_name(c) in ("fopen", "open", "creat")]
-    chk.floor("output file opens", len(opens), 1)
-    for c in opens:
-        a = call_args(c)
-        if callee_name(c) == "fopen":
-            mode = strip(a[1], casts=True)
-            mv = mode.get("value", "") if mode.get("kind") == "StringLiteral" else ""
-            chk.require(mv.strip('"').startswith("w"), "BIN", "BIN/truncate", loc_str(c),
-                        "the output file is opened for writing with truncation (mode \"w...\")", "mode %s" % mv)
-        elif callee_name(c) == "open":
-            fl = ce.try_eval(a[1])
-            chk.require(fl is not None and fl & O_TRUNC, "BIN", "BIN/truncate", loc_str(c),
-                        "the output file is opened with O_TRUNC (an existing longer file must not keep its tail)", "flags %s" % (oct(fl) if fl is not None else "?"))
+    bin_rule(chk, prog)
     chk.explanation = (
         "Decides: both file wrappers load the text with one loader and return the result of the matching string entry point "
         "called with their own instance and arguments; the loader returns a zero-filled anonymous mapping at least one byte "
